@@ -356,6 +356,30 @@ def rule_taskmembers(fx, out):
                 out.append(('R20.same', oid, VIOLATED, 'member %s of the task is a %s but is initialised from the argument %s of type %s: a converted copy - the elements are then computed from other operand values (another precision) than the scalar binding, which works on the argument itself' % (i['field'], i['ftype'], i['text'], ptypes[i['text']]), f['loc']))
     return n
 
+def rule_regorder(fx, out):
+    """R20.same (registration order): Boost.Python tries the overloads of one name in reverse order of registration and converts a
+    Python float to the first parameter type that accepts it - a C++ float accepts it silently.  Where one functor is registered
+    for a list of element types (boost::mpl::for_each over a type vector), double therefore has to come after float, so that a
+    call with Python floats reaches the double overload: otherwise every all-scalar call computes in single precision while
+    the array forms and the C++ library compute in double."""
+    n = 0; seen = set()
+    for f in fx.fns:
+        for e in f.events:
+            if e['k'] != 'call' or not e['name'].endswith('mpl::for_each') or not e.get('targs'): continue
+            if not any(x in f.name for x in ('register', 'Register')) and 'PyImath::detail' in f.name: continue
+            seq = e['targs'][0]
+            m = re.match(r'^boost::mpl::vector\d*<(.*)>$', seq)
+            if not m: continue
+            tys = [t_.strip() for t_ in m.group(1).split(',')]
+            if 'float' not in tys or 'double' not in tys: continue
+            if (f.key, e['loc']) in seen: continue
+            seen.add((f.key, e['loc'])); n += 1
+            ok = tys.index('double') > tys.index('float')
+            out.append(('R20.same', 'regorder:%s@%s' % (sname(f), e['loc'].rsplit(':', 2)[-2]), HOLDS if ok else VIOLATED,
+                        'registered for %s: the double overload comes last and is tried first' % tys if ok else
+                        'the overloads are registered for %s: the float overload is registered last, is tried first and accepts a Python float - all-scalar calls then compute in single precision, unlike the array forms and the library' % tys, e['loc']))
+    return n
+
 def rule_shared(fx, out):
     """R20.shared: nothing reachable from a Task::execute override writes an object with static storage duration (a global,
     a static member, a function-local static): sub-ranges run concurrently on worker threads, so such a write is a data race
@@ -540,7 +564,7 @@ def rule_unmasked(fx, out):
                         'on the branch %s the task %s indexes the argument with the position in the masked view; the argument has the unmasked length, so element k must be taken at raw_ptr_index(k)' % (C, e['cls']), e['loc']))
     return n
 
-RULES = [('range', rule_range_index), ('len', rule_len), ('wr', rule_wr), ('gil', rule_gil), ('shared', rule_shared), ('taskmembers', rule_taskmembers), ('ops', rule_ops), ('loops', rule_loops), ('unmasked', rule_unmasked)]
+RULES = [('range', rule_range_index), ('len', rule_len), ('wr', rule_wr), ('gil', rule_gil), ('shared', rule_shared), ('taskmembers', rule_taskmembers), ('regorder', rule_regorder), ('ops', rule_ops), ('loops', rule_loops), ('unmasked', rule_unmasked)]
 
 def main(rep, ws, tier):
     repo = build.REPO
@@ -562,6 +586,7 @@ def main(rep, ws, tier):
     rep.floor('dispatchTask sites + length helpers', counts['len'], 60)
     rep.floor('vectorised apply functions', counts['wr'], 8)
     rep.floor('GIL obligations', counts['gil'], 40)
+    rep.floor('float/double registration lists', counts['regorder'], 1)
     rep.floor('task members initialised from constructor arguments', counts['taskmembers'], 60)
     rep.floor('execute overrides and element functors checked for shared static state', counts['shared'], 100)
     rep.floor('operator functors', counts['ops'], 30)
